@@ -261,7 +261,7 @@ impl World {
         let call = self.read_calls;
         self.read_calls += 1;
         if let Some(k) = self.pending_read_err {
-            if k == ErrKind::Interrupted {
+            if k.is_interrupted() {
                 // the library retried EINTR itself instead of reporting it
                 self.pending_read_err = None;
                 self.retried_interrupted += 1;
@@ -281,10 +281,7 @@ impl World {
                     self.pending_read_err = Some(kind);
                     self.last_read = Some(RRet::Err(kind));
                     self.ev(Ev::Read { offered, ret: RRet::Err(kind) });
-                    return Err(io::Error::new(
-                        kind.to_io(),
-                        format!("injected read fault at call {}", call),
-                    ));
+                    return Err(kind.make(&format!("injected read fault at call {}", call)));
                 }
                 Fault::ReadPanic { call: c } if c == call => {
                     self.fire(i);
@@ -442,11 +439,11 @@ impl World {
         } else {
             self.probe_write_fault_in_nonmatch += 1;
         }
-        if kind != ErrKind::Interrupted && self.fatal_write_err.is_none() {
+        if !kind.is_interrupted() && self.fatal_write_err.is_none() {
             self.fatal_write_err = Some((kind.to_io(), self.accepted.len()));
         }
         self.ev(Ev::Write { offered, ret: WRet::Err(kind) });
-        Err(io::Error::new(kind.to_io(), "injected write fault"))
+        Err(kind.make("injected write fault"))
     }
 }
 
